@@ -5,16 +5,17 @@
 // The approach (and part of the code) is the one of mc/props/c05/term.go, which see for the model of
 // the heights as read from /repo. In short, with TermDuration = T = 8 and InterimDuration = I = 2
 // (both are configuration values of the product, main/config/config_from_file.go):
-//   height % T == 0        snapshot block: top DeputyCount candidates of the parent state become term h/T
-//   T*k .. T*k+I (k>=1)    interim: the old term still signs; an unregistering candidate is not refunded now
-//   T*k+I+1      (k>=1)    reward block, first block of term k; BlockAssembler.Finalize, after the block's
-//                          transactions: issueTermReward (salary added to the balance of the income
-//                          address of every node of term k-1), refundCandidateDeposit (every unregistered
-//                          candidate of the store's stable candidate list that still has a deposit
-//                          recorded and is not a deputy of the term in charge gets transaction.Refund),
-//                          THEN transaction.ChangeVotesByBalance (each account's net balance change of
-//                          the block re-weights the candidate it votes for), merge, finalise
-//   unregister             votes := 0; refund at once unless interim or deputy of the term in charge
+//
+//	height % T == 0        snapshot block: top DeputyCount candidates of the parent state become term h/T
+//	T*k .. T*k+I (k>=1)    interim: the old term still signs; an unregistering candidate is not refunded now
+//	T*k+I+1      (k>=1)    reward block, first block of term k; BlockAssembler.Finalize, after the block's
+//	                       transactions: issueTermReward (salary added to the balance of the income
+//	                       address of every node of term k-1), refundCandidateDeposit (every unregistered
+//	                       candidate of the store's stable candidate list that still has a deposit
+//	                       recorded and is not a deputy of the term in charge gets transaction.Refund),
+//	                       THEN transaction.ChangeVotesByBalance (each account's net balance change of
+//	                       the block re-weights the candidate it votes for), merge, finalise
+//	unregister             votes := 0; refund at once unless interim or deputy of the term in charge
 //
 // Real two-deputy chain (chain.BlockChain with the real DPoVP engine, store, deputy manager), DeputyCount
 // = 2: every block is built by the stand-alone BlockAssembler.MineBlock (miner path) signed by the
@@ -29,12 +30,13 @@
 // term {C1, C3} is paid in proportion to its snapshot votes at 19 and C3 may leave office).
 //
 // Fixture (balances chosen off the 200-LEMO boundaries so that a fee alone crosses nothing):
-//   C1 (deposit = minimum), C3 (minimum + 150 LEMO), C2 (minimum) are registered in block 2;
-//   V (1090 LEMO) votes C1; C2 and C3 vote for C1 (their deposit refunds are voting weight of C1);
-//   inc0 = income address of genesis deputy D0 (150 LEMO) votes for C1: a salary / the fees of the
-//   blocks D0 mines cross its 200-LEMO step; D1 makes ITSELF its income address and votes for itself;
-//   incC3 (income address of C3, 150 LEMO) votes for C1; in TB the deputy C1 (income address = itself)
-//   votes for itself.
+//
+//	C1 (deposit = minimum), C3 (minimum + 150 LEMO), C2 (minimum) are registered in block 2;
+//	V (1090 LEMO) votes C1; C2 and C3 vote for C1 (their deposit refunds are voting weight of C1);
+//	inc0 = income address of genesis deputy D0 (150 LEMO) votes for C1: a salary / the fees of the
+//	blocks D0 mines cross its 200-LEMO step; D1 makes ITSELF its income address and votes for itself;
+//	incC3 (income address of C3, 150 LEMO) votes for C1; in TB the deputy C1 (income address = itself)
+//	votes for itself.
 //
 // Oracle after EVERY block (prefix blocks included), tally() of main.go over all accounts the history
 // ever touched (fixture + every address in a change log + every address the miner's account manager
@@ -172,6 +174,7 @@ func init() {
 	vote("vVC3", tV, tC3)
 	vote("vWC3", tW, tC3)
 	vote("vC2C1", tC2, tC1)
+	vote("vC2C3", tC2, tC3)
 	vote("vC3C1", tC3, tC1)
 	vote("vI0C1", tInc0, tC1)
 	vote("vI0C3", tInc0, tC3)
